@@ -712,7 +712,17 @@ func c12Directional(c *core.Ctx) {
 		obj := gen.S{"type": "object", "properties": p}
 		schemas = append(schemas, obj, gen.S{"type": "array", "items": obj}, gen.S{"type": "object", "properties": gen.S{"n": obj}, "required": gen.Arr("n")}, gen.S{"allOf": gen.Arr(obj, gen.S{"type": "object"})})
 	}
-	inner := []any{gen.S{}, gen.S{"a": 1.0}, gen.S{"b": "x"}, gen.S{"a": 1.0, "b": "x"}, gen.S{"a": "bad"}, gen.S{"a": nil}, gen.S{"a": 1.0, "b": 2.0}}
+	// "not" over a schema with nested defaults: what the negated schema would inject is not part of the value, and how far
+	// the negated schema is visited (to its first failure, or to the end in multi-error mode) must not matter
+	notObj := gen.S{"type": "object",
+		"not":        gen.S{"type": "object", "properties": gen.S{"a": gen.S{"type": "string"}, "z": gen.S{"type": "object", "properties": gen.S{"d": gen.S{"type": "string", "default": "x"}}}}},
+		"properties": gen.S{"a": gen.S{"type": "integer"}, "z": gen.S{"type": "object", "maxProperties": 0.0}}}
+	notArr := gen.S{"type": "array", "maxItems": 3.0,
+		"not":   gen.S{"type": "array", "items": gen.S{"type": "object", "required": gen.Arr("k"), "properties": gen.S{"k": gen.S{"type": "string"}, "d": gen.S{"type": "integer", "default": 5.0}}}},
+		"items": gen.S{"type": "object", "maxProperties": 1.0}}
+	schemas = append(schemas, notObj, notArr, gen.S{"type": "object", "properties": gen.S{"n": notObj}}, gen.S{"allOf": gen.Arr(notObj)}, gen.S{"type": "array", "items": notObj})
+	inner := []any{gen.S{"a": 1.0, "z": gen.S{}}, gen.S{"a": "s", "z": gen.S{}}, gen.Arr(gen.S{"k": 1.0}, gen.S{"k": "s"}), gen.Arr(gen.S{"q": 1.0}, gen.S{"k": "s"}),
+		gen.S{}, gen.S{"a": 1.0}, gen.S{"b": "x"}, gen.S{"a": 1.0, "b": "x"}, gen.S{"a": "bad"}, gen.S{"a": nil}, gen.S{"a": 1.0, "b": 2.0}}
 	var values []any
 	for _, v := range inner {
 		values = append(values, v, gen.Arr(v), gen.Arr(v, gen.S{}), gen.S{"n": v})
